@@ -280,7 +280,7 @@ func (h *NFSProcedureHandler) handleMkdir(body io.Reader, reply *RPCReply, authC
 	// and listing, and any negative entry for the new name.
 	h.server.handler.attrCache.Invalidate(node.path)
 	h.server.handler.attrCache.InvalidateNegativeInDir(node.path)
-	h.server.handler.attrCache.Invalidate(dirPath)
+	h.server.handler.attrCache.InvalidateSubtree(dirPath) // with negative entries cached below the name
 	if h.server.handler.dirCache != nil {
 		h.server.handler.dirCache.Invalidate(node.path)
 	}
